@@ -661,15 +661,20 @@ func runURLNormalise(c *Ctx) {
 		n++
 		info := f.Info()
 		found := false
+		bareLit := ""
 		InspectNoLits(f.Body, func(m ast.Node) bool {
 			is, ok := m.(*ast.IfStmt)
 			if !ok {
 				return true
 			}
-			mentionsHTTP := false
+			mentionsHTTP, bare := false, ""
 			ast.Inspect(is.Cond, func(x ast.Node) bool {
 				if bl, ok := x.(*ast.BasicLit); ok && bl.Kind == token.STRING && strings.HasPrefix(strings.Trim(bl.Value, "\"`"), "http") {
 					mentionsHTTP = true
+					// F63: the prefix that is tested is a scheme (`http://`), not the letters a host name may begin with
+					if v := strings.Trim(bl.Value, "\"`"); !strings.HasSuffix(v, "://") {
+						bare = v
+					}
 				}
 				return true
 			})
@@ -687,10 +692,16 @@ func runURLNormalise(c *Ctx) {
 				}
 				if tv := info.Types[be.X]; tv.Value != nil && tv.Value.Kind() == constant.String && constant.StringVal(tv.Value) == "http://" && ObjOf(info, be.Y) == ObjOf(info, as.Lhs[0]) {
 					found = true
+					bareLit = bare
 				}
 			}
 			return true
 		})
+		if found {
+			c.Check(bareLit == "", "url-normalise/"+name+"/scheme", f.Pos(), "the prefix that is tested is a scheme with its separator",
+				name+" takes a server URL that begins with `"+bareLit+"` for one that has a scheme: a host whose name starts with those letters (httpgw.internal:8080) gets no http:// in front, "+
+					"session creation fails with an unsupported scheme and the websocket URL comes out as wsgw.internal:///ws")
+		}
 		c.Check(found, "url-normalise/"+name, f.Pos(), "a URL without the http prefix gets http:// in front",
 			name+" does not put http:// in front of a server URL without a scheme, its sibling does: with --server-url localhost:8080 the session is created on the server, but the websocket URL built from the same string does not parse (or parses into scheme 'localhost'), "+
 				"so the host cannot connect to the session it has just created")
@@ -1006,6 +1017,46 @@ func runOpenFilesBounded(c *Ctx) {
 	})
 	if n == 0 {
 		c.Bad("open-files/none", hfb.Pos(), "handleFileBegin makes no per-file reservation (NewBitmap / sidecar)")
+	}
+	// (counted-before-visible, F57b) the increment of the counter dominates the registration that makes the file visible to the data-stream
+	// readers (the store into the state map): a reader can finish a one-chunk file - and decrement - before handleFileBegin is through
+	{
+		hcfg := hfb.CFG()
+		var inc, reg NodeRef
+		hcfg.EachNode(func(r NodeRef) {
+			switch s := r.Node().(type) {
+			case *ast.IncDecStmt:
+				if s.Tok == token.INC && ObjOf(hinfo, s.X) == counter && !inc.Valid() {
+					inc = r
+				}
+			case *ast.AssignStmt:
+				if len(s.Lhs) == 1 && len(s.Rhs) == 1 && !reg.Valid() {
+					if ix, ok := ast.Unparen(s.Lhs[0]).(*ast.IndexExpr); ok {
+						if t := hinfo.TypeOf(ix.X); t != nil && strings.Contains(t.String(), "recvFileStateMux") {
+							reg = r
+						}
+					}
+				}
+			}
+		})
+		if !inc.Valid() || !reg.Valid() {
+			c.Unknown("open-files/counted-before-visible", hfb.Pos(), "cannot find the increment of the open-file counter / the registration of the file's state in handleFileBegin")
+		} else {
+			// `if open < streams { counter++ }`: the guard stands for the increment
+			anchor := inc
+			InspectNoLits(hfb.Body, func(m ast.Node) bool {
+				is, ok := m.(*ast.IfStmt)
+				if ok && is.Else == nil && len(is.Body.List) == 1 && is.Body.Pos() <= inc.Node().Pos() && inc.Node().End() <= is.Body.End() {
+					if g := hcfg.Find(is.Cond.Pos()); g.Valid() {
+						anchor = g
+					}
+				}
+				return true
+			})
+			c.Check(hcfg.Dominates(anchor, reg), "open-files/counted-before-visible", inc.Node().Pos(), "the file counts as open before its state is registered",
+				"handleFileBegin registers the file's state (visible to the data-stream readers) before it counts the file as open: a reader that holds the only chunk of the file can finish it and decrement the counter - clamped at zero - before the increment, "+
+					"the counter stays one too high for the rest of the transfer and the next FileBegin of a correct sender is refused")
+		}
 	}
 	// finalizeFile: the decrement dominates the queueing of the acknowledgement
 	finfo := fin.Info()
